@@ -14,7 +14,7 @@
    the spec folded over a list of raw events; mk_state t mus = a fresh routing state on tree
    t with the scripted mutations mus). *)
 From Coq Require Import ZArith List Bool.
-From Tickit Require Import RectDefs WinRectSet WinDefs WinSpec WinInput WinInputSpec WinInputProofs.
+From Tickit Require Import RectDefs WinRectSet WinDefs WinSpec WinInput WinInputSpec WinInputProofs WinInputMutBase WinInputMutKey WinInputMutMouse WinInputMutation.
 Import ListNotations.
 Local Open Scope Z_scope.
 
@@ -133,11 +133,8 @@ Print Assumptions C14_drag.
 
 (* A window closing ITSELF inside its key handler: delivery to the rest is that of the
    unmutated order, no fault, nothing freed -- every tree, every claim pattern.
-   FULL STATEMENT of the mutation clause: "a window closing or unreferencing itself or another
-   window inside a handler neither derails delivery to the rest nor crashes".  Proved in
-   general: closing itself during key routing (below).  NOT proved in general (concrete
-   computed examples C14_mutation_examples and the correspondence check only): destroying
-   (both references dropped), closing ANOTHER window, mutations during mouse routing. *)
+   (The ordered form for self-close; the general theorems for any target, close and destroy,
+   keys and mouse, follow below.) *)
 Theorem C14_mutation_self_partial : forall fuel claims s w wn w0 n0 s' r,
   i_armed s = [(w0, (0, 1, w0))] -> i_freed s = [] -> i_pending s = [] -> i_fault s = false ->
   ids_unique (i_root s) ->
@@ -162,6 +159,88 @@ Theorem C14_mutation_self_term_partial : forall claims t w0 n0,
   c14_rest_checkb (t_ids n0) (key_spec claims t) (rev (i_log s')) = true.
 Proof. exact (@WinInputProofs.C14_mutation_self_term). Qed.
 Print Assumptions C14_mutation_self_term_partial.
+
+(* ---- the general mutation theorems (committed dispatch: a copy of the child list, entries
+   checked by address) ----
+   [armed_start s h cls act tgt n0]: one scripted mutation is armed -- when window h's handler
+   sees an event of class cls it closes (act <> 2) or closes and destroys (act = 2) window
+   tgt, ANY non-root window of the tree (itself, an ancestor whose frame is active, a
+   sibling, the next sibling, a descendant, the stealing first child, the focused child...),
+   nothing freed or pending, unique ids, no outside reference to tgt held by the routing
+   state.  Then routing never reads a freed window, everything pending is released when the
+   frames exit, at most tgt is freed (C14_mutation_no_crash; C14_mutation_term_mouse: the
+   same over every sequence of terminal mouse events, whichever synthesised delivery the
+   mutation runs in); when nobody claims, the deliveries to the windows outside the closed
+   subtree are those of the unmutated order -- as a multiset for keys (the order may
+   legitimately differ: a stealing window may become the first child), in order for the
+   mouse (C14_mutation_rest); and the accounting of the destruction (C14_mutation_destroy). *)
+Theorem C14_mutation_no_crash : forall claims s h cls act tgt n0,
+  armed_start s h cls act tgt n0 ->
+  (* _handle_key from any window *)
+  (forall fuel w wn s' r,
+     look s w = Some wn -> focus_okb wn = true -> (height wn < fuel)%nat ->
+     handle_key fuel no_defects claims s w = (s', r) ->
+     i_fault s' = false /\ i_pending s' = [] /\ incl (i_freed s') [tgt] /\ i_holds s' = i_holds s) /\
+  (* _handle_mouse from any window, any event type and position *)
+  (forall fuel w wn ty btn line col s' r,
+     look s w = Some wn -> (height wn < fuel)%nat ->
+     handle_mouse fuel no_defects claims s w ty btn line col = (s', r) ->
+     i_fault s' = false /\ i_pending s' = [] /\ incl (i_freed s') [tgt] /\ i_holds s' = i_holds s) /\
+  (* on_term_key *)
+  (focus_okb (r_tree (i_root s)) = true -> (height (r_tree (i_root s)) < ifuel)%nat ->
+     let s' := term_key no_defects claims s in
+     i_fault s' = false /\ i_pending s' = [] /\ incl (i_freed s') [tgt] /\ i_holds s' = i_holds s).
+Proof. exact (@WinInputMutation.C14_mutation_no_crash). Qed.
+Print Assumptions C14_mutation_no_crash.
+
+Theorem C14_mutation_term_mouse : forall claims s h cls act tgt n0 evs,
+  armed_start s h cls act tgt n0 -> dsrc_ok (i_root s) -> (height (r_tree (i_root s)) < ifuel)%nat ->
+  let s' := run_term_mouse ifuel claims s evs in
+  i_fault s' = false /\ i_pending s' = [] /\ incl (i_freed s') [tgt] /\ i_holds s' = i_holds s /\
+  (forall ty btn line col,
+     let s1 := term_mouse no_defects claims s ty btn line col in
+     i_fault s1 = false /\ i_pending s1 = [] /\ incl (i_freed s1) [tgt] /\ i_holds s1 = i_holds s).
+Proof. exact (@WinInputMutation.C14_mutation_term_mouse). Qed.
+Print Assumptions C14_mutation_term_mouse.
+
+Theorem C14_mutation_rest : forall claims s h cls act tgt n0,
+  armed_start s h cls act tgt n0 -> i_log s = [] ->
+  (* keys, nobody claims: as a multiset *)
+  ((forall x, Z.testbit (claims x) 0 = false) ->
+   forall fuel w wn s' r,
+     look s w = Some wn -> focus_okb wn = true -> (height wn < fuel)%nat ->
+     handle_key fuel no_defects claims s w = (s', r) ->
+     c14_rest_set_checkb (t_ids n0) (key_spec claims wn) (rev (i_log s')) = true) /\
+  (* one mouse phase, nobody claims that type: in order, hence as a multiset *)
+  (forall ty, (forall x, Z.testbit (claims x) ty = false) ->
+   forall fuel w wn btn line col s' r,
+     look s w = Some wn -> (height wn < fuel)%nat ->
+     handle_mouse fuel no_defects claims s w ty btn line col = (s', r) ->
+     c14_rest_checkb (t_ids n0) (fst (mouse_phase claims (mouse_order wn line col) ty btn)) (rev (i_log s')) = true /\
+     c14_rest_set_checkb (t_ids n0) (fst (mouse_phase claims (mouse_order wn line col) ty btn)) (rev (i_log s')) = true).
+Proof. exact (@WinInputMutation.C14_mutation_rest). Qed.
+Print Assumptions C14_mutation_rest.
+
+Theorem C14_mutation_destroy : forall claims s h cls act tgt n0,
+  armed_start s h cls act tgt n0 ->
+  (forall fuel w wn s' r,
+     look s w = Some wn -> focus_okb wn = true -> (height wn < fuel)%nat ->
+     handle_key fuel no_defects claims s w = (s', r) ->
+     (i_freed s' = [tgt] <-> key_fired claims h cls wn = true /\ act = 2) /\
+     (key_fired claims h cls wn = true ->
+        r_tree (i_root s') = cut tgt (r_tree (i_root s)) /\
+        r_orphans (i_root s') = (if act =? 2 then t_kids n0 ++ r_orphans (i_root s) else n0 :: r_orphans (i_root s))) /\
+     (key_fired claims h cls wn = false -> i_root s' = i_root s)) /\
+  (forall fuel w wn ty btn line col s' r,
+     look s w = Some wn -> (height wn < fuel)%nat ->
+     handle_mouse fuel no_defects claims s w ty btn line col = (s', r) ->
+     (i_freed s' = [tgt] <-> mouse_fired claims h cls ty wn line col = true /\ act = 2) /\
+     (mouse_fired claims h cls ty wn line col = true ->
+        r_tree (i_root s') = cut tgt (r_tree (i_root s)) /\
+        r_orphans (i_root s') = (if act =? 2 then t_kids n0 ++ r_orphans (i_root s) else n0 :: r_orphans (i_root s))) /\
+     (mouse_fired claims h cls ty wn line col = false -> i_root s' = i_root s)).
+Proof. exact (@WinInputMutation.C14_mutation_destroy). Qed.
+Print Assumptions C14_mutation_destroy.
 
 (* the pinned code: #20 a stealing first child that declines is offered the key again;
    #30 a handler closing the next sibling derails delivery to the rest *)
